@@ -344,7 +344,45 @@ type c15Gate struct {
 var (
 	c15Mu     sync.Mutex
 	c15Layers = map[*layer]chan *c15Gate{}
+	c15Frees  = map[*layer]*c15Track{}  // free-running layers: gates do not block, the last one passed is remembered
+	c15FreeWs = map[*waiter]*c15Track{} // ... found by their waiter when it closes
 )
+
+// c15Track follows a free-running prefetch: which gate it passed last, and who closes the waiter when
+type c15Track struct {
+	mu    sync.Mutex
+	e     *c15Env
+	rec   *c15Rec
+	last  string
+	waits map[int64]bool // goroutines that are inside WaitForPrefetchCompletion
+}
+
+func c15InstallEvents() {
+	verifhook.SetEvent(func(name string, kv ...any) {
+		if name != "layer.waiter.closed" || len(kv) == 0 {
+			return
+		}
+		w, ok := kv[0].(*waiter)
+		if !ok {
+			return
+		}
+		c15Mu.Lock()
+		t := c15FreeWs[w]
+		c15Mu.Unlock()
+		if t == nil {
+			return
+		}
+		t.mu.Lock()
+		at, by := t.last, "prefetch"
+		if t.waits[verifhook.Goid()] {
+			by = "wait" // the timeout branch of a waiting call
+		}
+		t.mu.Unlock()
+		o := t.e.obs()
+		o["wclosed"] = true // the hook sits right after close(doneCh)
+		t.rec.add(map[string]any{"ev": "WaiterClosed", "at": at, "by": by, "req": []int{}, "obs": o})
+	})
+}
 
 func c15InstallGates() {
 	verifhook.SetGate(func(name string, kv ...any) {
@@ -357,7 +395,16 @@ func c15InstallGates() {
 		}
 		c15Mu.Lock()
 		ch := c15Layers[l]
+		t := c15Frees[l]
 		c15Mu.Unlock()
+		if t != nil {
+			t.mu.Lock()
+			if strings.HasPrefix(name, "layer.prefetch.") {
+				t.last = name
+			}
+			t.mu.Unlock()
+			return
+		}
 		if ch == nil {
 			return
 		}
@@ -376,6 +423,7 @@ type c15File struct {
 	off    int64
 	chunks [][2]int64 // chunk offset, size
 	sum    [32]byte
+	data   []byte // expected content (nil for landmark files)
 }
 
 type c15Env struct {
@@ -515,6 +563,7 @@ func c15Mount(sc *c15Scen, b *c15Built, store metadata.Store, storeName string, 
 				n = co + cs
 			}
 			if data, ok := b.content[f.name]; ok {
+				f.data = data
 				f.sum = sha256.Sum256(data)
 			} else {
 				f.sum = sha256.Sum256([]byte{0xf}) // landmark files hold the single byte 0xf
@@ -636,20 +685,52 @@ func (e *c15Env) read(i int) (ok bool, msg string) {
 	return true, ""
 }
 
+// read one chunk of file i (k = 1: the first, k = 2: a middle one) through the verified reader
+func (e *c15Env) readPart(i, k int) (ok bool, msg string) {
+	f := e.files[i]
+	if len(f.chunks) < 3 || f.data == nil {
+		return false, "not a multi-chunk file"
+	}
+	c := f.chunks[0]
+	if k == 2 {
+		c = f.chunks[len(f.chunks)/2]
+	}
+	r := e.l.reader()
+	if r == nil {
+		return false, "no reader"
+	}
+	ra, err := r.OpenFile(f.id)
+	if err != nil {
+		return false, err.Error()
+	}
+	buf := make([]byte, c[1])
+	n, err := ra.ReadAt(buf, c[0])
+	if err != nil && err != io.EOF {
+		return false, err.Error()
+	}
+	if int64(n) != c[1] || !bytes.Equal(buf, f.data[c[0]:c[0]+c[1]]) {
+		return false, fmt.Sprintf("content mismatch (%d of %d bytes)", n, c[1])
+	}
+	return true, ""
+}
+
 // layout of the layer in the terms of Prefetch.tla; span/pre are measured on a metadata reader of the same store
 // over a recording section reader (bytes touched while reading each file alone, in both ways the code reads files)
+type c15Measured struct {
+	once sync.Once
+	v    map[string]any
+	err  error
+}
+
 var c15ScenCache sync.Map
 
+// the layout is measured once per scenario and store, however many walks run on it in parallel
 func (e *c15Env) scenario(b *c15Built, store metadata.Store) (map[string]any, error) {
 	key := e.sc.ID + "/" + e.store
-	if v, ok := c15ScenCache.Load(key); ok {
-		return v.(map[string]any), nil
-	}
-	v, err := e.measure(b, store)
-	if err == nil {
-		c15ScenCache.Store(key, v)
-	}
-	return v, err
+	c, _ := c15ScenCache.LoadOrStore(key, &c15Measured{})
+	m := c.(*c15Measured)
+	m.once.Do(func() { m.v, m.err = e.measure(b, store) })
+	return m.v, m.err
 }
 
 func (e *c15Env) measure(b *c15Built, store metadata.Store) (map[string]any, error) {
@@ -707,7 +788,9 @@ func (e *c15Env) measure(b *c15Built, store metadata.Store) (map[string]any, err
 			return nil, err
 		}
 		for _, c := range f.chunks {
-			if _, err := io.Copy(io.Discard, io.NewSectionReader(fr, c[0], c[1])); err != nil {
+			// one ReadAt per chunk, as readAndCache (Peek of the chunk size) and the on-demand path do
+			buf := make([]byte, c[1])
+			if _, err := fr.ReadAt(buf, c[0]); err != nil && err != io.EOF {
 				return nil, err
 			}
 		}
@@ -745,9 +828,13 @@ func (e *c15Env) measure(b *c15Built, store metadata.Store) (map[string]any, err
 			}
 		}
 	}
-	rd := []int{}
+	rd, pt, nch := []int{}, []int{}, []int{}
 	for i := range e.files {
 		rd = append(rd, i+1)
+		nch = append(nch, len(e.files[i].chunks))
+		if len(e.files[i].chunks) >= 3 && e.files[i].data != nil && len(pre[i]) == 0 && len(prf[i]) == 0 {
+			pt = append(pt, i+1)
+		}
 	}
 	tmo := e.sc.TmoMs
 	if tmo == 0 {
@@ -755,7 +842,7 @@ func (e *c15Env) measure(b *c15Built, store metadata.Store) (map[string]any, err
 	}
 	return map[string]any{"id": e.sc.ID + "/" + e.store, "nf": len(e.files), "names": names, "off": off, "span": span, "pre": pre, "prf": prf, "prio": prio,
 		"lm": e.lm, "loff": e.loff, "size": len(b.blob), "cs": e.sc.CS, "cfg": e.sc.Cfg, "thr": e.sc.Thr, "f0": e.f0,
-		"np": e.sc.NP, "nw": e.sc.NW, "nb": e.sc.NB, "tmo": tmo, "rd": rd, "ro": 2, "haslst": e.fsdir != ""}, nil
+		"np": e.sc.NP, "nw": e.sc.NW, "nb": e.sc.NB, "tmo": tmo, "rd": rd, "ro": 2, "pt": pt, "nch": nch, "free": false, "haslst": e.fsdir != ""}, nil
 }
 
 // ---------------------------------------------------------------------------------------------- replay of walks
@@ -1144,6 +1231,19 @@ func (e *c15Env) step(s c15Step) (evs []map[string]any, applied bool) {
 		if !ok {
 			ev["err"] = msg
 		}
+	case "ReadPart":
+		f, k := c15Int(s["f"]), c15Int(s["k"])
+		e.reg.mu.Lock()
+		off := e.reg.off
+		e.reg.mu.Unlock()
+		if e.pfStall || e.bgStall || off || f < 1 || f > len(e.files) {
+			return nil, false
+		}
+		ok, msg := e.readPart(f-1, k)
+		ev["f"], ev["k"], ev["ok"] = f, k, ok
+		if !ok {
+			ev["err"] = msg
+		}
 	case "RegistryOff", "RegistryOn":
 		e.reg.mu.Lock()
 		e.reg.off = act == "RegistryOff"
@@ -1305,8 +1405,24 @@ func c15Free(sc *c15Scen, b *c15Built, store metadata.Store, storeName string, i
 	if err != nil {
 		return nil, err
 	}
+	fscn := map[string]any{}
+	for k, v := range scn {
+		fscn[k] = v
+	}
+	fscn["free"], fscn["np"], fscn["nw"], fscn["nb"] = true, 2, 2, 2
+	scn = fscn
 	rec := &c15Rec{}
 	rec.add(map[string]any{"ev": "Reset", "sc": scn, "free": true, "iter": iter, "obs": e.obs()})
+	track := &c15Track{e: e, rec: rec, last: "none", waits: map[int64]bool{}}
+	c15Mu.Lock()
+	c15Frees[e.l], c15FreeWs[e.l.prefetchWaiter] = track, track
+	c15Mu.Unlock()
+	defer func() {
+		c15Mu.Lock()
+		delete(c15Frees, e.l)
+		delete(c15FreeWs, e.l.prefetchWaiter)
+		c15Mu.Unlock()
+	}()
 	variant := iter % 3
 	e.reg.mu.Lock()
 	e.reg.delay = time.Duration(rng.Intn(3)) * 200 * time.Microsecond
@@ -1326,6 +1442,9 @@ func c15Free(sc *c15Scen, b *c15Built, store metadata.Store, storeName string, i
 	}
 	waitf := func(i int) {
 		defer wg.Done()
+		track.mu.Lock()
+		track.waits[verifhook.Goid()] = true
+		track.mu.Unlock()
 		t0 := time.Now()
 		err := e.l.WaitForPrefetchCompletion()
 		ms := time.Since(t0).Milliseconds()
@@ -1362,11 +1481,17 @@ func c15Free(sc *c15Scen, b *c15Built, store metadata.Store, storeName string, i
 	rec.add(map[string]any{"ev": "PrefetchEnd", "p": 1, "res": res, "want": want, "req": preq, "obs": e.obs()})
 	if variant != 1 {
 		// the reads the first part of the property speaks about
-		for i := range e.files {
-			ok, _ := e.read(i)
-			rec.add(map[string]any{"ev": "Read", "f": i + 1, "ok": ok, "req": e.reg.takeAll(), "obs": e.obs()})
-			if rng.Intn(2) == 0 {
-				break
+		for _, pi := range scn["prio"].([]int) {
+			ok, _ := e.read(pi - 1)
+			rec.add(map[string]any{"ev": "Read", "f": pi, "ok": ok, "req": e.reg.takeAll(), "obs": e.obs()})
+		}
+		// on-demand reads of single chunks (the head or the middle of a file), as a container does before the
+		// background fetch gets to the file
+		for i, f := range e.files {
+			if len(f.chunks) >= 3 && f.data != nil {
+				k := 1 + (iter/3)%2
+				ok, _ := e.readPart(i, k)
+				rec.add(map[string]any{"ev": "ReadPart", "f": i + 1, "k": k, "ok": ok, "req": e.reg.takeAll(), "obs": e.obs()})
 			}
 		}
 		time.Sleep(3 * c15Silence)
@@ -1443,6 +1568,8 @@ func VerifC15(t VerifC15T, store metadata.Store, storeName string) {
 	}
 	c15InstallGates()
 	defer verifhook.SetGate(nil)
+	c15InstallEvents()
+	defer verifhook.SetEvent(nil)
 	type job struct {
 		sc   *c15Scen
 		b    *c15Built
